@@ -139,7 +139,36 @@ pub fn run(outdir: &Path, tier: &str, seed: u64, shards: usize, _replay: Option<
                 visibility: Some("pub".into()),
                 ..Opts::default()
             };
-            let oc = runner::generate(&schema.render_sdl(), "graphql", &doc.render(), &opts);
+            // every other schema rendering marks every second VALUE as deprecated, under each deprecation strategy
+            // in turn: the strategies speak about fields; an enum value keeps its variant whatever they say
+            let mut opts = opts;
+            let mut sdl = schema.render_sdl();
+            if si % 2 == 1 {
+                opts.deprecation = [Some(2u8), Some(1), Some(0), None][(si / 2 + norm as usize) % 4];
+                let mut in_enum = false;
+                let mut k = 0usize;
+                sdl = sdl
+                    .lines()
+                    .map(|l| {
+                        if l.starts_with("enum ") {
+                            in_enum = true;
+                            k = 0;
+                            l.to_string()
+                        } else if l.starts_with('}') {
+                            in_enum = false;
+                            l.to_string()
+                        } else if in_enum && !l.trim().is_empty() {
+                            k += 1;
+                            if k % 2 == 0 { format!("{} @deprecated(reason: \"old\")", l) } else { l.to_string() }
+                        } else {
+                            l.to_string()
+                        }
+                    })
+                    .collect::<Vec<_>>()
+                    .join("\n");
+                *dist.entry(format!("item/with deprecated values/strategy {:?}", opts.deprecation)).or_default() += 1;
+            }
+            let oc = runner::generate(&sdl, "graphql", &doc.render(), &opts);
             let rust_name = if norm { ename.to_upper_camel_case() } else { ename.to_string() };
             let mods = runner::modules(&oc);
             let item: Option<RItem> = mods.as_ref().ok().and_then(|m| m.get(0)).and_then(|m| m.items.iter().find(|i| i.name() == rust_name).cloned());
